@@ -106,18 +106,19 @@ def vmStep (st : VmEngState) (args : List String) : VmEngState × String :=
         let n := kv rest "n" 10
         let clr := kv rest "clear" 1 == 1
         let budget := kv rest "budget" Gen.maxInstr
-        let rec go (k i : Nat) (s : VmState) (first : String) (same : Nat) (last : String) : VmState × String × Nat × String :=
+        let rec go (k i : Nat) (s : VmState) (first : String) (bal same : Nat) (last : String) : VmState × String × Nat × Nat × String :=
           match k with
-          | 0 => (s, first, same, last)
+          | 0 => (s, first, bal, same, last)
           | k+1 =>
             let (s', e) := run p budget { s with hostLog := [], sched := .none, allocIndex := 0, forcedGcs := 0 }
             let o := if clr then showOutcome p s' e else showObs p s' e
             let first := if i == 0 then o else first
+            let bal := if i == 0 then s'.stack.count else bal
             let (same, last) := if o == first then (same + 1, last)
               else if last.isEmpty then (same, " run" ++ toString i ++ "={" ++ o ++ "}") else (same, last)
-            go k (i + 1) (if clr then clear s' else s') first same last
-        let (s', first, same, last) := go n 0 s "" 0 ""
-        ({ st with st := some s' }, "first={" ++ first ++ "} same=" ++ toString same ++ "/" ++ toString n ++ last)
+            go k (i + 1) (if clr then clear s' else s') first bal same last
+        let (s', first, bal, same, last) := go n 0 s "" 0 0 ""
+        ({ st with st := some s' }, "first={" ++ first ++ "} bal=" ++ toString bal ++ " same=" ++ toString same ++ "/" ++ toString n ++ last)
     | _, _ => (st, "bad-op")
   | "budcheck" :: m :: rest =>
     match Module.ofTok? m with
